@@ -287,6 +287,134 @@ example :
       [Op.add { plainJob with id := some 7 } none, .add { plainJob with id := some 7, name := 2 } none]).2.map (·.res)
       = [.ok, .raised .valueError] := by decide
 
+/-! ## 7. more operations and stopping points: `get_results`, `track_progress`, Ctrl-C, deletion
+
+`Op` also has `getResults` (`JobGroup.get_results()`: a refresh, then `job.get_results()` for every job whose status
+is `maybe_completed`; that call evaluates `job.status` again — UNKNOWN is not final — and asks the server for the
+results, one scripted `Rsp` per request), `track` (`track_progress()`: refresh rounds until nothing is waiting or
+running), the answer `Ans.intr` (Ctrl-C: `KeyboardInterrupt` in a status request or in the `time.sleep` after it —
+wait loop, delay between two sequential launches, `track_progress`), `wipe` / `deleteDate` (the group's file is
+deleted by name, with all groups, or by date, and the name opened again) and `other` (namespace operations on other
+names).  `disk_refines_memory`, `accepted_ids_survive_refusal`, `request_stable_under_reopen`, `no_duplicate_ids`
+above are statements about ALL lists of `Op`, hence about all histories that contain these operations and stopping
+points; the statements below are what is specific to them. -/
+
+/-- non-vacuity: a history with a Ctrl-C in the sequential wait, one in the delay after a completed job, one in
+`track_progress`, results fetched (mapped, unavailable, failing) around an UNKNOWN status, a date-based deletion
+that spares the group and one that removes it -/
+example :
+    let ops := [Op.add ctxJob none, .add plainJob none, .add plainJob none,
+                .launch false false true [.accept 0, .accept 0] [.st .running, .intr],
+                .track [.st .running, .st .running, .intr],
+                .launch false false true [.accept 0, .accept 0] [.st .unknown, .st .canceled, .intr],
+                .getResults [.st .unknown, .st .unknown] [.ok true, .unavailable],
+                .getResults [.st .unknown, .st .success] [.ok true, .fault .httpError],
+                .deleteDate 0 7, .other,
+                .launch false false false [.accept 0] [],
+                .deleteDate 5 9, .add plainJob none]
+    (run (step fixed) (create fixed true) ops).2.map (·.res) =
+      [.ok, .ok, .ok, .raised .keyboardInterrupt, .raised .keyboardInterrupt, .raised .keyboardInterrupt, .ok, .ok,
+       .ok, .ok, .ok, .ok, .ok] ∧
+    (exec (step fixed) (create fixed true) (ops.take 7)).mem.map (·.st) = [.unknown, .canceled, .waiting] ∧
+    (exec (step fixed) (create fixed true) (ops.take 8)).mem.map (·.st) = [.success, .canceled, .waiting] ∧
+    (exec (step fixed) (create fixed true) ops).mem.map (·.id) = [none] ∧
+    (exec (step fixed) (create fixed true) ops).created = 9 := by decide
+
+/-- **Ctrl-C is a stopping point like any other.**  Spelled out for the wait loop: the status seen before the
+interrupt is in the file (`try … finally`), and the object goes on being usable. -/
+example :
+    let s := exec (step fixed) (create fixed true)
+      [Op.add plainJob none, .launch false false true [.accept 0] [.st .running, .intr]]
+    s.mem.map (·.st) = [.running] ∧ (s.disk.getD []).map (·.status) = [some .running] := by decide
+
+/-- pinned wait loop (no `finally`): a Ctrl-C leaves RUNNING in memory and WAITING in the file -/
+theorem disk_refines_memory_fails_when_wait_interrupted :
+    ¬ DiskRefinesMemory { fixed with pollFix := false } := by
+  intro h
+  have := h true [.add plainJob none, .launch false false true [.accept 0] [.st .running, .intr]]
+    (by simp [WFOp, WFJob, plainJob])
+  revert this
+  decide
+
+/-- `JobGroup.get_results` as it was: `job.get_results()` refreshes an UNKNOWN status and nobody writes it -/
+theorem disk_refines_memory_fails_when_results_refresh_status :
+    ¬ DiskRefinesMemory { fixed with gstFix := false } := by
+  intro h
+  have := h true [.add plainJob none, launchPar [.accept 0], .getResults [.st .unknown, .st .success] [.ok false]]
+    (by simp [WFOp, WFJob, plainJob, launchPar])
+  revert this
+  decide
+
+/-- the same history on the repaired code: SUCCESS in memory and in the file -/
+example :
+    let s := exec (step fixed) (create fixed true)
+      [Op.add plainJob none, launchPar [.accept 0], .getResults [.st .unknown, .st .success] [.ok false]]
+    s.mem.map (·.st) = [.success] ∧ (s.disk.getD []).map (·.status) = [some .success] := by decide
+
+/-- `RemoteJob._get_results` as it was: results that carry a `result_mapping` make it replace the job's
+`_delta_parameters`; from then on the job cannot be serialised (`KeyError`), so the next launch of the group gets an
+identifier from the server that never reaches the file -/
+theorem accepted_ids_lost_when_results_replace_delta_parameters :
+    ¬ AcceptedIdsSurvive { fixed with resFix := false } := by
+  intro h
+  have := h true [.add ctxJob none, launchPar [.accept 0], .add plainJob none,
+                  .getResults [.st .canceled] [.ok true], launchPar [.accept 0]]
+    (by simp [WFOp, WFJob, ctxJob, plainJob, launchPar])
+  revert this
+  decide
+
+/-- … spelled out: the launch raises `KeyError`, identifier 1 was issued, the file only has identifier 0 -/
+theorem current_results_lose_an_accepted_id :
+    let v : Variant := { fixed with resFix := false }
+    let ops := [Op.add ctxJob none, launchPar [.accept 0], .add plainJob none,
+                .getResults [.st .canceled] [.ok true], launchPar [.accept 0]]
+    (run (step v) (create v true) ops).2.map (·.res) = [.ok, .ok, .ok, .ok, .raised .keyError] ∧
+    (exec (step v) (create v true) ops).issued = [1, 0] ∧ diskIds (exec (step v) (create v true) ops) = [0] := by
+  decide
+
+/-- **deletion yields a fresh empty group** — every state, whatever the group held: after the group's file was
+deleted (by name or with all groups) the name opens as an empty group created now, and the file is that group. -/
+theorem delete_yields_fresh_group (s : State) (now : Nat) :
+    (step fixed s (.wipe now)).2.res = .ok ∧ (step fixed s (.wipe now)).1.mem = [] ∧
+    (step fixed s (.wipe now)).1.disk = some [] ∧ (step fixed s (.wipe now)).1.created = now ∧
+    reload fixed (step fixed s (.wipe now)).1 = [] := by
+  have e : step fixed s (.wipe now) =
+      (clearScript (wipeOp fixed (clearScript s) now).1, ⟨(wipeOp fixed (clearScript s) now).2, []⟩) := rfl
+  rw [e, wipeOp_eq]
+  refine ⟨rfl, rfl, rfl, rfl, ?_⟩
+  simp [reload, construct, clearScript, fixed]
+
+/-- **date-based deletion**: a group created strictly before the cut-off becomes a fresh empty group; any other group
+is re-opened exactly as it was (same file, same creation date, memory = the file's image) -/
+theorem delete_by_date (s : State) (hs : Inv s) (cutoff now : Nat) :
+    let s' := (step fixed s (.deleteDate cutoff now)).1
+    (s.created < cutoff → s'.mem = [] ∧ s'.disk = some [] ∧ s'.created = now) ∧
+    (¬ s.created < cutoff → s'.disk = s.disk ∧ s'.created = s.created ∧ s'.mem.map toDict = s.mem.map toDict) := by
+  constructor
+  · intro h
+    have e : step fixed s (.deleteDate cutoff now) =
+        (clearScript (wipeOp fixed (clearScript s) now).1, ⟨(wipeOp fixed (clearScript s) now).2, []⟩) := by
+      simp [step, deleteDateOp, clearScript, h]
+    rw [e, wipeOp_eq]
+    exact ⟨rfl, rfl, rfl⟩
+  · intro h
+    have hi : Inv ({ clearScript s with clock := now } : State) :=
+      hs.of_same rfl rfl rfl rfl rfl rfl hs.good rfl
+    simp only [step, deleteDateOp]
+    rw [if_neg (by simpa [clearScript] using h), construct_eq hi]
+    exact ⟨rfl, rfl, reloadList_toDict hs.good⟩
+
+/-- non-vacuity of `Inv` in `delete_by_date`: every reachable state -/
+example (dir : Bool) (ops : List Op) (hw : ∀ op ∈ ops, WFOp op) : Inv (exec (step fixed) (create fixed dir) ops) :=
+  exec_inv dir ops hw
+
+/-- namespace operations that concern other names leave the group alone (the model's side of "other groups are
+untouched"; that the code's deletions, listings and openings of *other* names really are such operations is the
+subject of `NS` below and of the correspondence) -/
+theorem other_names_leave_group (v : Variant) (s : State) :
+    (step v s .other).1.mem = s.mem ∧ (step v s .other).1.disk = s.disk ∧ (step v s .other).1.created = s.created :=
+  ⟨rfl, rfl, rfl⟩
+
 /-! ## 6. the group is found again *by name*: the file primitives form a store keyed by the file name
 
 The theorems above speak about "the file" of the group.  `JobGroup` finds that file through the group's
@@ -356,5 +484,95 @@ theorem reopen_by_name_fails_when_sites_disagree :
       [.done, .content (some 7), .content (some 7)] := by decide
 
 end FS
+
+/-! ## 8. listing and deleting the group files of a directory
+
+`NS.step k` is the machine of `JobGroup(name)` openings, saves, `list_existing`, `delete_job_group`,
+`delete_all_job_groups` and `delete_job_groups_date` over any number of names, for a choice `k` of the three sites
+that relate names and directory entries.  `Coherent k`: they agree (validated against the real code by the
+correspondence; `real` satisfies it). -/
+namespace NS
+
+theorem real_paths_coherent : Coherent real := real_coherent
+
+/-- non-vacuity: a common injective path derivation with its inverse -/
+example : Coherent ⟨fun n => n + 100, fun n => n + 100, fun p => if p < 100 then none else some (p - 100)⟩ :=
+  ⟨fun _ => rfl, fun a b h => by simpa using h, fun n => by simp⟩
+
+/-- **list_existing_exact.**  After every history, `list_existing()` returns exactly the names under which a group
+is found. -/
+theorem list_existing_exact {k : Paths} (hk : Coherent k) (ops : List Op) (n : Nat) :
+    n ∈ listExisting k (exec (step k) [] ops) ↔ hasFile k (exec (step k) [] ops) n = true :=
+  mem_listExisting hk (named_exec k ops) n
+
+/-- **delete_then_reopen_fresh.**  In every directory: after `delete_job_group(name)`, `JobGroup(name)` is a fresh
+empty group created now. -/
+theorem delete_then_reopen_fresh {k : Paths} (hk : Coherent k) (d : Dir) (n now : Nat) :
+    (step k (step k d (.delete n)).1 (.open n now)).2 = .content (some ⟨now, 0⟩) := by
+  have h : hasFile k (deleteFile k d n) n = false := by
+    simp [hasFile, deleteFile, hk.1 n, lookup_remove_self]
+  simp [step, openGroup, h]
+
+/-- **delete_leaves_other_groups.**  Deleting a group changes neither what is found nor what is read under any
+other name. -/
+theorem delete_leaves_other_groups {k : Paths} (hk : Coherent k) (d : Dir) (n n' : Nat) (hne : n' ≠ n) :
+    readFile k (step k d (.delete n)).1 n' = readFile k d n' ∧ hasFile k (step k d (.delete n)).1 n' = hasFile k d n' := by
+  have hp : k.full n' ≠ k.full n := fun he => hne (hk.2.1 _ _ he)
+  simp [step, readFile, hasFile, deleteFile, hk.1 n', lookup_remove_ne _ _ _ hp]
+
+/-- **delete_all_leaves_nothing.**  After every history, `delete_all_job_groups()` empties the directory: no name
+has a group any more, `list_existing()` is empty, and any name opens as a fresh empty group. -/
+theorem delete_all_leaves_nothing {k : Paths} (hk : Coherent k) (ops : List Op) :
+    (step k (exec (step k) [] ops) .deleteAll).1 = [] :=
+  eq_nil_of_lookup_none (fun p => deleteAll_lookup hk (named_exec k ops) p)
+
+theorem delete_all_then_reopen_fresh {k : Paths} (hk : Coherent k) (ops : List Op) (n now : Nat) :
+    (step k (step k (exec (step k) [] ops) .deleteAll).1 (.open n now)).2 = .content (some ⟨now, 0⟩) ∧
+    (step k (step k (exec (step k) [] ops) .deleteAll).1 .list).2 = .names [] := by
+  rw [delete_all_leaves_nothing hk ops]
+  exact ⟨by simp [step, openGroup, hasFile, lookup], rfl⟩
+
+/-- **delete_by_date_exact.**  After every history, `delete_job_groups_date(cutoff)` returns normally; a group whose
+`created_date` is strictly before the cut-off is gone; every other group file is exactly what it was; no group file
+appears (the `JobGroup(name)` the code uses to read the date never creates one). -/
+theorem delete_by_date_exact {k : Paths} (hk : Coherent k) (ops : List Op) (cutoff now : Nat) :
+    let d := exec (step k) [] ops
+    (step k d (.deleteDate cutoff now)).2 = .done ∧
+    ∀ n, readFile k (step k d (.deleteDate cutoff now)).1 n =
+      (match readFile k d n with
+       | some c => if c.created < cutoff then none else some c
+       | none => none) := by
+  have h := deleteDate_spec hk (named_exec k ops) cutoff now
+  refine ⟨?_, h.2⟩
+  simp [step, h.1]
+
+/-- non-vacuity: three groups, listing, a date-based deletion that removes the oldest, deletion by name, deletion
+of all -/
+example :
+    (run (step real) [] [.open 4 10, .save 4 2 11, .open 6 20, .save 9 1 30, .list, .deleteDate 20 40, .list,
+                         .open 4 50, .delete 6, .has 6, .has 9, .deleteAll, .list, .open 9 60]).2 =
+      [.content (some ⟨10, 0⟩), .content (some ⟨10, 2⟩), .content (some ⟨20, 0⟩), .content (some ⟨30, 1⟩),
+       .names [4, 6, 9], .done, .names [6, 9], .content (some ⟨50, 0⟩), .done, .found false, .found true,
+       .done, .names [], .content (some ⟨60, 0⟩)] := by decide
+
+/-- `list_existing` as it was does not satisfy the hypothesis: the empty name's file `.jgrp` is listed as the name
+`.jgrp` … -/
+theorem dotted_not_coherent : ¬ Coherent dotted := by
+  intro h
+  have := h.2.2 1
+  revert this
+  decide
+
+/-- … and the properties fail: `delete_all_job_groups()` leaves that group in place (it tries to delete
+`.jgrp.jgrp`), and `delete_job_groups_date` *creates* a group file `.jgrp.jgrp` when it opens the listed name -/
+theorem delete_all_fails_for_dotted_names :
+    (run (step dotted) [] [.save 1 3 5, .deleteAll, .open 1 9]).2 =
+      [.content (some ⟨5, 3⟩), .done, .content (some ⟨5, 3⟩)] ∧
+    (run (step real) [] [.save 1 3 5, .deleteAll, .open 1 9]).2 =
+      [.content (some ⟨5, 3⟩), .done, .content (some ⟨9, 0⟩)] ∧
+    (run (step dotted) [] [.save 1 3 5, .deleteDate 2 7, .has 2, .has 1]).2 =
+      [.content (some ⟨5, 3⟩), .done, .found true, .found true] := by decide
+
+end NS
 
 end PM.C19
